@@ -25,7 +25,7 @@ theorem sk_dropClient_st (s : St) (id : Nat) :
 
 theorem good_clientStart {go} (hgo : GoOk go) {d kind tok react spec family s}
     (hpre : Pre d s (.clientStart kind tok react spec family)) :
-    Good d (.clientStart kind tok react spec family) s (bodyClientStart go kind tok react spec family s) := by
+    GoodO d (.clientStart kind tok react spec family) s (bodyClientStart go kind tok react spec family s) := by
   obtain ⟨hw, hof, hd⟩ := hpre
   unfold bodyClientStart
   simp only
@@ -68,8 +68,9 @@ theorem good_clientStart {go} (hgo : GoOk go) {d kind tok react spec family s}
         rw [hid]
         show c.outstanding = bump d s.nextClient (sends acts) s.nextClient
         rw [bump_self, hfr, k3]; omega
-  have hg := hgo d (.runActs s.nextClient acts) s1 hpre1
-  refine ⟨hg.wf, hg.debt, ?_, trivial⟩
+  rcases hgo.2 d (.runActs s.nextClient acts) s1 hpre1 with hoof | hg
+  · exact Or.inl hoof
+  refine Or.inr ⟨hg.wf, hg.debt, ?_, trivial⟩
   have h1 : StepS none (some s.nextClient) d s.sk s1.sk := by rw [hsk1]; exact step_addClient
   exact (h1.trans hg.step).drop_xi_fresh (Nat.le_refl _)
 
@@ -82,10 +83,13 @@ theorem runActs_send {go} (hgo : GoOk go) {d id spec rest s}
     (post : St → Ret → St) (hpost : ∀ s' r, (post s' r).sk = s'.sk) :
     let r1 := go (.sendNolock none false false spec (.client id) []) s
     let s1 := post r1.1 r1.2
-    Wf s1 ∧ Pre d s1 (.runActs id rest) ∧ StepS none (some id) d s.sk s1.sk := by
+    r1.1.outOfFuel = true ∨ (Wf s1 ∧ Pre d s1 (.runActs id rest) ∧ StepS none (some id) d s.sk s1.sk) := by
   intro r1 s1
-  have hg1 := hgo (bump d id (sends rest)) (.sendNolock none false false spec (.client id) []) s
+  rcases hgo.2 (bump d id (sends rest)) (.sendNolock none false false spec (.client id) []) s
     ⟨hw, ha, by show DebtOk none (bump (bump d id (sends rest)) id 1) s.sk; rw [bump_bump]; exact hd⟩
+    with hoof | hg1
+  · exact Or.inl hoof
+  right
   have hsk : s1.sk = r1.1.sk := hpost _ _
   have hw1 : Wf s1 := Wf.of_sk_eq hsk hg1.wf
   refine ⟨hw1, ⟨hw1, ?_⟩, ?_⟩
@@ -98,7 +102,7 @@ theorem runActs_send {go} (hgo : GoOk go) {d id spec rest s}
     exact hg1.step.weaken (Or.inl rfl) (Or.inr rfl) (fun i => le_bump d id _ i)
 
 theorem good_runActs {go} (hgo : GoOk go) {d id acts s} (hpre : Pre d s (.runActs id acts)) :
-    Good d (.runActs id acts) s (bodyRunActs go id acts s) := by
+    GoodO d (.runActs id acts) s (bodyRunActs go id acts s) := by
   obtain ⟨hw, hpre⟩ := hpre
   unfold bodyRunActs
   split
@@ -112,11 +116,13 @@ theorem good_runActs {go} (hgo : GoOk go) {d id acts s} (hpre : Pre d s (.runAct
       omega
     · have hf' : hasFinish rest = false := by simpa using hf
       simp only [hasFinish, hf', Bool.false_eq_true, ↓reduceIte, sends] at hpre
-      obtain ⟨h1, hp1, hs1⟩ := runActs_send hgo (spec := spec) hw hf' hpre.1 (hpre.2 (by omega))
-        (fun s' _ => s') (fun _ _ => rfl)
+      rcases runActs_send hgo (spec := spec) hw hf' hpre.1 (hpre.2 (by omega))
+        (fun s' _ => s') (fun _ _ => rfl) with hoof | ⟨h1, hp1, hs1⟩
+      · exact Or.inl (hgo.1 _ _ hoof)
       simp only at h1 hp1 hs1 ⊢
-      have hg2 := hgo d (.runActs id rest) _ hp1
-      exact ⟨hg2.wf, hg2.debt, hs1.trans hg2.step, trivial⟩
+      rcases hgo.2 d (.runActs id rest) _ hp1 with hoof2 | hg2
+      · exact Or.inl hoof2
+      exact Or.inr ⟨hg2.wf, hg2.debt, hs1.trans hg2.step, trivial⟩
   · -- sendSlot
     rename_i spec slot rest
     by_cases hf : hasFinish rest = true
@@ -124,7 +130,7 @@ theorem good_runActs {go} (hgo : GoOk go) {d id acts s} (hpre : Pre d s (.runAct
       omega
     · have hf' : hasFinish rest = false := by simpa using hf
       simp only [hasFinish, hf', Bool.false_eq_true, ↓reduceIte, sends] at hpre
-      obtain ⟨h1, hp1, hs1⟩ := runActs_send hgo (spec := spec) hw hf' hpre.1 (hpre.2 (by omega))
+      rcases runActs_send hgo (spec := spec) hw hf' hpre.1 (hpre.2 (by omega))
         (fun s' st => if st == .ok then s'.modClient id fun c =>
           if slot == 0 then { c with qidA := s'.lastQid } else { c with qidAAAA := s'.lastQid } else s')
         (fun s' st => by
@@ -132,18 +138,23 @@ theorem good_runActs {go} (hgo : GoOk go) {d id acts s} (hpre : Pre d s (.runAct
           · apply sk_modClient
             intro c _
             exact sk_setQid c (slot == 0) s'.lastQid
-          · rfl)
+          · rfl) with hoof | ⟨h1, hp1, hs1⟩
+      · refine Or.inl (hgo.1 _ _ ?_)
+        split
+        · simpa using hoof
+        · exact hoof
       simp only at h1 hp1 hs1 ⊢
-      have hg2 := hgo d (.runActs id rest) _ hp1
-      exact ⟨hg2.wf, hg2.debt, hs1.trans hg2.step, trivial⟩
+      rcases hgo.2 d (.runActs id rest) _ hp1 with hoof2 | hg2
+      · exact Or.inl hoof2
+      exact Or.inr ⟨hg2.wf, hg2.debt, hs1.trans hg2.step, trivial⟩
   · -- noRetry
     rename_i qid rest
     simp only [hasFinish, sends] at hpre
     have key : ∀ s1 : St, s1.sk = s.sk →
-        Good d (.runActs id (.noRetry qid :: rest)) s (go (.runActs id rest) s1) := by
+        GoodO d (.runActs id (.noRetry qid :: rest)) s (go (.runActs id rest) s1) := by
       intro s1 h1
-      refine Good.tail' (hgo d _ _ ⟨Wf.of_sk_eq h1 hw, ?_⟩) (by rw [h1]; exact StepS.refl _ _ _ _) (Or.inl rfl)
-        (Or.inr rfl) trivial
+      refine Good.tail' (hgo.2 d _ _ ⟨Wf.of_sk_eq h1 hw, ?_⟩) (by rw [h1]; exact StepS.refl _ _ _ _) (Or.inl rfl)
+        (Or.inr rfl) (fun _ => trivial)
       rw [h1]; exact hpre
     split
     · exact key _ (by rw [sk_modQuery_same]; intro; rfl)
@@ -155,7 +166,7 @@ theorem good_runActs {go} (hgo : GoOk go) {d id acts s} (hpre : Pre d s (.runAct
     obtain ⟨c0, hc0, hid0, hm0, hp0, _⟩ := client?_of_active hw ha
     simp only [hc0]
     have hlt : id < s.sk.nextClient := by have := hw.k.lt c0.sk hm0; rw [← hid0]; exact this
-    have hg := hgo d (.userCb c0.tok c0.react st timeouts dg) s
+    have hg := hgo.2 d (.userCb c0.tok c0.react st timeouts dg) s
       ⟨hw, ⟨some id, hd, fun c hc he => by
           have hci : c.id = id := Option.some.inj he
           have h1 := hw.tok.tKU c0.sk hm0 c hc
@@ -171,6 +182,9 @@ theorem good_runActs {go} (hgo : GoOk go) {d id acts s} (hpre : Pre d s (.runAct
           rw [this]; exact ⟨hns, hz⟩⟩
     generalize go (.userCb c0.tok c0.react st timeouts dg) s = r1 at hg
     obtain ⟨s1, ret1⟩ := r1
+    rcases hg with hoof | hg
+    · exact Or.inl hoof
+    right
     have hns1 : s1.sk.NoSub id := hg.step.orphan id hlt (fun he => by cases he) hns
     have hsk2 := sk_dropClient_st s1 id
     refine ⟨?_, ?_, ?_, trivial⟩
